@@ -1,4 +1,5 @@
-import SR.Proofs.ActorNetTrace
+import SR.Proofs.ActorNetCount
+import SR.Proofs.ActorActions
 /-!
 # C07 — message transport obeys the selected network semantics in every interleaving
 
@@ -273,6 +274,44 @@ theorem C07_deliver_only_if_present (n : Net) (hc : n.Canon) (e : Env)
     obtain ⟨t, rfl⟩ := List.head?_eq_some_iff.1 hq
     simp only [Net.contents, List.mem_flatMap]
     exact ⟨_, hm, by simp⟩
+
+/-- `Net.count` (membership / multiset count / occurrences in the flow's queue) is the multiplicity of an
+envelope in the contents -/
+theorem C07_count_contents (n : Net) (hc : n.Canon) (e : Env) : n.contents.count e = n.count e :=
+  count_contents hc e
+
+/-- **Loss only by drop.** One valid operation lowers the number of copies of an envelope `x` only if it is a
+drop of `x`, or a delivery of `x` on a non-duplicating or ordered network — and then by exactly one copy.
+Sends never lower it; a delivery on the duplicating network removes nothing. -/
+theorem C07_loss_only_by_drop (n n' : Net) (op : NetOp) (hc : n.Canon) (hv : n.valid op = true)
+    (h : n.apply op = some n') (x : Env) (hlt : n'.count x < n.count x) :
+    (op = .drop x ∨ (op = .deliver x ∧ n.isDup = false)) ∧ n'.count x + 1 = n.count x := by
+  have := count_apply hc hv h x
+  cases op with
+  | send e => simp only at this; omega
+  | deliver e =>
+    simp only at this
+    by_cases hd : n.isDup = true
+    · simp only [hd, if_true] at this; omega
+    · simp only [hd, Bool.false_eq_true, if_false] at this
+      by_cases hx : x = e
+      · subst hx; simp only [if_true] at this
+        exact ⟨Or.inr ⟨rfl, by simpa using hd⟩, this⟩
+      · simp only [hx, if_false] at this; omega
+  | drop e =>
+    simp only at this
+    by_cases hx : x = e
+    · subst hx; simp only [if_true] at this; exact ⟨Or.inl rfl, this⟩
+    · simp only [hx, if_false] at this; omega
+
+/-- **Actions of the actor model**: a Deliver is offered exactly for the deliverable envelopes (flow heads /
+envelopes with a copy left / present envelopes) whose recipient exists; a Drop is offered exactly for the
+deliverable envelopes, and only if the network is lossy. -/
+theorem C07_actions {σ η : Type} (sys : ActorSys σ η) (st : St σ η) (hn : st.NetOk sys) (e : Env) :
+    (Action.deliver e ∈ actions sys st ↔ st.net.isHead e ∧ e.dst < sys.n) ∧
+    (Action.drop e ∈ actions sys st ↔ sys.lossy = true ∧ st.net.isHead e) := by
+  rw [mem_actions_iff sys st hn, mem_actions_iff sys st hn]
+  simp [enabledSpec, mem_iterDeliverable hn.1]
 
 /-- every network the actor model can reach from a constructor-built one is canonical, so the three views
 agree with the contents in every reachable network state -/
